@@ -251,6 +251,9 @@ pub struct World {
     pub noise_node: NodeId,
     pub faults: Vec<FaultState>,
     pub storms: Vec<Storm>,
+    /// Partition windows per bus node (ticks): receiver deaf / transmitter mute until then.
+    pub deaf_until: Vec<u64>,
+    pub mute_until: Vec<u64>,
     pub fired_wire: Vec<FiredWire>,
     pub stats: Stats,
     pub violations: RefCell<Vec<Violation>>,
@@ -368,6 +371,8 @@ impl World {
             noise_node,
             faults: Vec::new(),
             storms: Vec::new(),
+            deaf_until: vec![0; 64],
+            mute_until: vec![0; 64],
             fired_wire: Vec::new(),
             stats: Stats::default(),
             violations: RefCell::new(Vec::new()),
@@ -786,6 +791,25 @@ impl World {
                 }
             }
         }
+        // partition windows
+        {
+            let mut bus = self.bus.borrow_mut();
+            let tx = &mut bus.txs[idx];
+            let sender = tx.sender;
+            if sender < 64 && self.mute_until[sender] > start {
+                tx.lost_for = u64::MAX;
+                tx.damaged = true;
+                self.stats.inc("fault.partition_muted_telegrams");
+                self.last_fault_us = self.now / self.cfg.baud.max(1);
+            }
+            for n in 0..64usize {
+                if self.deaf_until[n] > start && n != sender {
+                    tx.lost_for |= 1u64 << n;
+                    self.stats.inc("fault.partition_unheard_telegrams");
+                    self.last_fault_us = self.now / self.cfg.baud.max(1);
+                }
+            }
+        }
         self.push(end, 0, Ev::TxEnd(idx));
         // abstract trace
         {
@@ -916,6 +940,20 @@ impl World {
                     self.stations[*station].clock_jump_us += *delta_us;
                     self.stats.inc(if *delta_us >= 0 { "fault.clock_jump_fwd" } else { "fault.clock_jump_back" });
                     self.notify_station(*station, &StationEv::ClockJump(*delta_us));
+                }
+            }
+            FaultKind::Deaf { station, us } => {
+                if *station < self.stations.len() {
+                    let node = self.stations[*station].node;
+                    self.deaf_until[node % 64] = self.now + self.us(*us);
+                    self.stats.inc("fault.partition_deaf_window");
+                }
+            }
+            FaultKind::Mute { station, us } => {
+                if *station < self.stations.len() {
+                    let node = self.stations[*station].node;
+                    self.mute_until[node % 64] = self.now + self.us(*us);
+                    self.stats.inc("fault.partition_mute_window");
                 }
             }
             FaultKind::SlavePower { slave, on } => {
